@@ -51,6 +51,37 @@ fn exprs() -> Vec<(Expr, Option<u32>)> {
     let t = |x| Expr::Test(x);
     let a = |x| Expr::Action(x);
     let nl = Fmt::Special(Special::Newline);
+    // every directive the target supports, in one format (among them the ones that speak about
+    // where the scan started, %H and %P), and every kind of test in one conjunction: nothing
+    // but the scan call may depend on the device
+    let all_fields: Vec<Fmt> = crate::props::c02::supported_fields().into_iter().flat_map(|f| [Fmt::Field(f), Fmt::Lit(" ".into())]).collect();
+    let mut with_nl = all_fields.clone();
+    with_nl.push(nl.clone());
+    let mut every_test = t(Test::True);
+    let mut seen = std::collections::BTreeSet::new();
+    for l in crate::props::c02::full_menu() {
+        if let Expr::Test(x) = &l {
+            let kind = format!("{x:?}").split(|c: char| !c.is_alphanumeric()).next().unwrap_or("").to_string();
+            // (time tests embed the second of the compile call: two compilations differ there by
+            // design, which C15 judges; they stay out of this differential check)
+            if !kind.ends_with("Time") && seen.insert(kind) {
+                every_test = Expr::and(every_test, l.clone());
+            }
+        }
+    }
+    let mut v = vec![
+        (a(Action::Printf(with_nl.clone())), None),
+        (Expr::and(a(Action::FPrintf("all".into(), all_fields)), a(Action::Printf(vec![Fmt::Field(Field::StartingPoint), Fmt::Field(Field::NameNoStart)]))), Some(2)),
+        (Expr::or(every_test, a(Action::FPrintf("t".into(), with_nl))), None),
+    ];
+    v.extend(exprs_small());
+    v
+}
+
+fn exprs_small() -> Vec<(Expr, Option<u32>)> {
+    let t = |x| Expr::Test(x);
+    let a = |x| Expr::Action(x);
+    let nl = Fmt::Special(Special::Newline);
     vec![
         (t(Test::True), None),
         (a(Action::Print), None),
